@@ -622,7 +622,8 @@ impl Indexable for ast::ArgValue {
     fn index(&self, ctx: &mut IndexCtx) -> Option<Self::Output> {
         match self {
             ast::ArgValue::PositionalArgValue(positional) => {
-                let typ = positional.value()?.index(ctx)?;
+                // an argument whose type cannot be inferred is still an argument
+                let typ = positional.value()?.index(ctx).unwrap_or(Type::Unknown);
                 Some((None, typ, positional.syntax().text_range()))
             }
             ast::ArgValue::NamedArgValue(named) => {
@@ -637,7 +638,7 @@ impl Indexable for ast::ArgValue {
                         return None;
                     }
                 };
-                let typ = named.value()?.index(ctx)?;
+                let typ = named.value()?.index(ctx).unwrap_or(Type::Unknown);
                 Some((Some(name), typ, named.syntax().text_range()))
             }
         }
